@@ -14,7 +14,7 @@ sys.path.insert(0, os.path.dirname(os.path.abspath(__file__)))
 from common import *
 
 PROP = 'C05'
-LEANFILES = ['PnVerif/Model/NumRecs.lean', 'PnVerif/Lemmas/NumRecs.lean', 'PnVerif/Lemmas/NumRecsStep.lean', 'PnVerif/Props/C05.lean']
+LEANFILES = ['PnVerif/Model/NumRecs.lean', 'PnVerif/Lemmas/NumRecs.lean', 'PnVerif/Lemmas/NumRecsStep.lean', 'PnVerif/Lemmas/NumRecsSched.lean', 'PnVerif/Props/C05.lean']
 
 
 class HistGen:
@@ -64,12 +64,21 @@ class HistGen:
         rk = self.r.below(self.n)
         isrec = 0 if self.r.chance(1, 5) else 1
         e = self.rec() if isrec else 0
-        self.pending[rk].append((self.nextid, isrec, e))
+        # mirror of the library's queue order (sorted by variable offset, not by posting time): a request to the
+        # fixed-size variable is inserted in front of the trailing block of record-variable requests
+        p = self.pending[rk]
+        if isrec:
+            p.append((self.nextid, isrec, e))
+        else:
+            j = len(p)
+            while j > 0 and p[j - 1][1]:
+                j -= 1
+            p.insert(j, (self.nextid, isrec, e))
         self.emit('iput %d %d %d %d' % (rk, self.nextid, isrec, e))
         self.nextid += 1
 
     def sel_good(self, rk):
-        """NC_REQ_ALL, everything by id, or the oldest k requests"""
+        """NC_REQ_ALL, everything by id, or the first k requests of the (sorted) queue"""
         p = self.pending[rk]
         c = self.r.below(3)
         if c == 0 or not p:
@@ -151,8 +160,8 @@ class HistGen:
             base = self.top
             a, b = self.nextid, self.nextid + 1
             self.nextid += 2
-            self.emit('iput %d %d 1 %d' % (rk, a, max(1, base)))           # older request: an existing record
-            self.emit('iput %d %d 1 %d' % (rk, b, base + 3))               # newer request: creates records
+            self.emit('iput %d %d 1 %d' % (rk, a, max(1, base)))           # earlier in the queue: an existing record
+            self.emit('iput %d %d 1 %d' % (rk, b, base + 3))               # later in the queue: creates records
             npend = len(self.pending[rk]) + 2
             sel = ['L' if i != rk else 'L %d' % b for i in range(self.n)]
             # with exactly one pending request the shortcut "num_reqs == numLeadPutReqs" would flush everything
@@ -333,7 +342,7 @@ def run_check(tier, seed):
             return V.finish()
         exe = cc(tree, [os.path.join(VERIF, 'harness/c05_rec.c')], os.path.join(wd, 'c05_rec'))
         ns = [2, 3, 4] if tier == 'quick' else [2, 3, 4, 6, 8]
-        ngood = 14 if tier == 'quick' else 120
+        ngood = 24 if tier == "quick" else 120
         t1 = Timer()
         hists, k = [], 0
         for n in ns:
@@ -390,7 +399,7 @@ def run_check(tier, seed):
         V.cov['distinct_nontrivial'] = len(distinct)
         V.cov['traces_validated_against_impl'] = len(allh) - len(set(t[0] for t in tie_diffs))
         V.cov['rule'] = ('seeded histories of 12-30 calls (collective / vard / independent / nonblocking puts to a record variable with new and existing record '
-                         'indices, zero-length and failing requests, wait_all / wait with NC_REQ_ALL, full id lists and oldest-k lists, fill_var_rec, begin/end_indep_data, '
+                         'indices, zero-length and failing requests, wait_all / wait with NC_REQ_ALL, full id lists and first-k-of-the-queue lists, fill_var_rec, begin/end_indep_data, '
                          'sync, sync_numrecs, redef+enddef, close+open, calls in the wrong mode) on CDF-1/2/5 files; plus histories ending in one of the three defective calls and '
                          'the minimal witnesses of the counterexample theorems. one evaluation = one call, after which every rank\'s record count and the header bytes are compared '
                          'with the model and with the specification (ghost) values. non-trivial = the call changed a count or the header, or is a wait/sync/mode switch; '
